@@ -6,7 +6,7 @@ use build_info::VersionControl;
 use camino::Utf8PathBuf;
 use klukai_types::{
     config::{Config, PrometheusConfig},
-    spawn::wait_for_all_pending_handles,
+    spawn::{wait_for_all_pending_handles, wait_for_pending_announcements},
     tripwire,
 };
 use metrics::gauge;
@@ -106,6 +106,8 @@ pub async fn run(
             error!("error from task handle: {e:?}");
         }
     }
+    // transactions that were acknowledged just now still have to reach the subs
+    wait_for_pending_announcements().await;
     // wind down subs when handles are dropped
     agent.subs_manager().drop_handles().await;
 
